@@ -114,6 +114,95 @@ print(json.dumps(res))
 '''
 
 
+# ---- merge plan: every pending input goes into exactly one merge ---------------------------------------------------------------
+COMB = 'hail/python/hail/vds/combiner/variant_dataset_combiner.py'
+
+
+def _plan_contracts():
+    """_step_vdses chooses the datasets of one merge from bins (dict: size class -> list of datasets); _step_gvcfs takes a prefix of
+    the pending GVCFs.  Contracts on the real statements (fragments of the two methods): what is taken and what stays is a
+    SPLIT of what was there (take ++ rest == old, element by element, per bin), bins not visited are untouched, at most
+    branch_factor datasets are taken."""
+    out = []
+    T = {'self._vdses': 'Map[int, List[U]]', 'files_to_merge': 'List[U]', 'extra': 'List[U]'}
+
+    def setup(eng, st):
+        st.env['self'] = pyvc.SRecord('VariantDatasetCombiner', {'_vdses': st.env['BINS'], '_branch_factor': st.env['BF'], '_num_vdses': st.env['NV']})
+        st.env['OLD'] = st.env['BINS']
+
+    # (1) head: the lowest bin gives up to branch_factor datasets from its front
+    out.append(Contract(
+        path=COMB, qualname='VariantDatasetCombiner._step_vdses', label='VariantDatasetCombiner._step_vdses[first-bin]', fragment=('re:^current_bin = original_bin = min\\(self\\._vdses\\)', 're:^remaining = '),
+        types=dict(T), extra_inputs={'BINS': 'Map[int, List[U]]', 'BF': 'int', 'NV': 'int'}, setup=setup,
+        requires=['BF >= 2', 'len(BINS) >= 1', "forall(lambda b: implies(b in BINS, len(BINS[b]) >= 1))"],
+        ensures=[
+            ('taken-and-kept-split-the-lowest-bin', 'implies(current_bin in self._vdses, files_to_merge + self._vdses[current_bin] == OLD[current_bin]) and implies(not (current_bin in self._vdses), files_to_merge == OLD[current_bin])'),
+            ('a-bin-is-dropped-only-when-empty-and-kept-bins-are-non-empty', 'implies(current_bin in self._vdses, len(self._vdses[current_bin]) >= 1)'),
+            ('other-bins-untouched', 'forall(lambda b: implies(b != current_bin, (b in self._vdses) == (b in OLD) and implies(b in OLD, self._vdses[b] == OLD[b])))'),
+            ('between-one-and-branch-factor-datasets', '1 <= len(files_to_merge) and len(files_to_merge) <= BF and remaining == BF - len(files_to_merge)'),
+            ('the-bin-chosen-is-a-bin', 'current_bin in OLD and original_bin == current_bin'),
+        ],
+        raises={}, canaries=[('always-whole-bin', 'not (current_bin in self._vdses)')],
+    ))
+
+    def setup2(eng, st):
+        setup(eng, st)
+        st.env['files_to_merge'] = st.env['FTM']
+        st.env['remaining'] = st.env['REM']
+
+    # (2) one top-up iteration: the (now) lowest bin gives its LAST `remaining` datasets
+    out.append(Contract(
+        path=COMB, qualname='VariantDatasetCombiner._step_vdses', label='VariantDatasetCombiner._step_vdses[top-up iteration]', fragment=('re:^current_bin = min\\(self\\._vdses\\)', 're:^remaining = '),
+        types=dict(T), extra_inputs={'BINS': 'Map[int, List[U]]', 'BF': 'int', 'NV': 'int', 'FTM': 'List[U]', 'REM': 'int'}, setup=setup2,
+        requires=['BF >= 2', 'len(BINS) >= 1', "forall(lambda b: implies(b in BINS, len(BINS[b]) >= 1))", 'REM >= 1', 'REM == BF - len(FTM)', 'len(FTM) >= 1'],
+        ensures=[
+            ('taken-and-kept-split-the-bin', 'implies(current_bin in self._vdses, self._vdses[current_bin] + extra == OLD[current_bin]) and implies(not (current_bin in self._vdses), extra == OLD[current_bin])'),
+            ('kept-bins-are-non-empty', 'implies(current_bin in self._vdses, len(self._vdses[current_bin]) >= 1)'),
+            ('what-was-taken-joins-the-merge-nothing-else-changes-in-it', 'files_to_merge == extra + FTM'),
+            ('other-bins-untouched', 'forall(lambda b: implies(b != current_bin, (b in self._vdses) == (b in OLD) and implies(b in OLD, self._vdses[b] == OLD[b])))'),
+            ('never-more-than-branch-factor', 'len(files_to_merge) <= BF and remaining == BF - len(files_to_merge) and len(extra) >= 1'),
+        ],
+        raises={}, canaries=[('always-whole-bin', 'not (current_bin in self._vdses)')],
+    ))
+
+    def setup3(eng, st):
+        st.env['self'] = pyvc.SRecord('VariantDatasetCombiner', {'_gvcfs': st.env['G'], '_branch_factor': st.env['BF'], '_gvcf_batch_size': st.env['BS']})
+
+    # (3) _step_gvcfs: a prefix of the pending GVCFs is taken, the rest stays in order
+    out.append(Contract(
+        path=COMB, qualname='VariantDatasetCombiner._step_gvcfs', label='VariantDatasetCombiner._step_gvcfs[selection]', fragment=('re:^step = self\\._branch_factor', 're:^self\\._gvcfs = '),
+        types={'self._gvcfs': 'List[U]', 'files_to_merge': 'List[U]'}, extra_inputs={'G': 'List[U]', 'BF': 'int', 'BS': 'int'}, setup=setup3,
+        requires=['BF >= 2', 'BS >= 1', 'len(G) >= 1'],
+        ensures=[('taken-and-kept-split-the-pending-gvcfs', 'files_to_merge + self._gvcfs == G'), ('at-most-one-batch-and-at-least-one', '1 <= len(files_to_merge) and len(files_to_merge) <= BS * BF')],
+        raises={}, canaries=[('takes-everything', 'len(self._gvcfs) == 0')],
+    ))
+    return out
+
+
+def _plan(ctx):
+    for c in _plan_contracts():
+        eng = pyvc.Engine(ctx, c)
+        eng.run()
+        ctx.add(core.decided('C38/%s/no-call-outside-the-contract' % eng.label, not eng.unmodelled, repr(eng.unmodelled), kind='frame'))
+    # the top-up loop re-runs that iteration while datasets remain and the merge is short of branch_factor; sample names are cut
+    # with the same bounds as the files
+    import ast as pyast
+
+    tree = pyast.parse(core.read_repo(COMB))
+    fn = pyvc.find_function(tree, 'VariantDatasetCombiner._step_vdses')
+    loops = [n for n in fn.body if isinstance(n, pyast.While)]
+    ctx.add(core.decided('C38/VariantDatasetCombiner._step_vdses/top-up-loop-runs-while-datasets-remain-and-the-merge-is-short', len(loops) == 1 and pyast.unparse(loops[0].test) == 'self._num_vdses > 0 and remaining > 0', repr([pyast.unparse(l.test) for l in loops]), kind='scan'))
+    g = pyast.unparse(pyvc.find_function(tree, 'VariantDatasetCombiner._step_gvcfs'))
+    ctx.add(core.decided('C38/VariantDatasetCombiner._step_gvcfs/sample-names-are-cut-like-the-files', "sample_names = self._gvcf_sample_names[:self._gvcf_batch_size * step]" in g and "self._gvcf_sample_names = self._gvcf_sample_names[self._gvcf_batch_size * step:]" in g, '', kind='scan'))
+    # resumed runs must not write onto intermediates still pending in the saved plan: the job counter restarts at 1 after a load
+    # (it is not serialised), so the path prefix has to be fresh per combiner object
+    init = pyast.unparse(pyvc.find_function(tree, 'VariantDatasetCombiner.__init__'))
+    ser = [pyast.unparse(n.value) for n in pyast.walk(tree) if isinstance(n, pyast.Assign) and pyast.unparse(n.targets[0]) == '__serialized_slots__']
+    fresh = 'self._uuid = uuid.uuid4()' in init or any("'_job_id'" in x and "'_uuid'" in x for x in ser)
+    ctx.add(core.decided('C38/VariantDatasetCombiner/intermediate-paths-of-a-resumed-run-are-fresh', fresh, 'uuid4 per object, or job id and uuid saved with the plan', kind='scan'))
+    ctx.under_contract(COMB, 'VariantDatasetCombiner.__init__ (intermediate path prefix)')
+
+
 def native_witness(ctx):
     """concrete search on the real code, usable when the contracts no longer apply to a changed source (vc/check.py)"""
     return core.run_native(REPLAY, {'search': True})
@@ -135,10 +224,11 @@ def build(ctx):
 
     eng.replayer = replayer
     eng.run()
+    _plan(ctx)
     ctx.witness_search = lambda: core.run_native(REPLAY, {'search': True})
     ctx.assume('math.ceil(a / b) on Python ints equals the exact rational ceiling (float division rounding cannot cross an integer for a < 2**53; contig lengths are < 2**31)')
     ctx.assume('"no longer than requested" is read as end - start <= interval_size (the code\'s own unit; an inclusive interval then holds one more locus)')
     ctx.assume('hl.Interval / hl.Locus are value constructors: an interval is the pair (start position, end position), includes_end=True')
-    ctx.undecided('merge plan: _step_vdses / _step_gvcfs slicing conserves the inputs (not yet under contract)')
+    ctx.undecided('merge plan: the selection statements of _step_vdses / _step_gvcfs are under contract (splits per bin); that the new dataset is filed in a later bin and the run terminates is not')
     ctx.undecided('save/resume of the combiner plan (JSON encode/decode of the combiner state)')
     ctx.undecided('engine calls (combine_variant_datasets, import_gvcfs) and termination of run()')
